@@ -747,7 +747,8 @@ def replay_run():
         bad = 'reactions %r...' % (reacted[:5],)
     if bad is None:
         # the reader fails: _run must end with that very exception (it is run() that routes it)
-        for exc in (EOFError('Unexpected end of stream.'), ValueError('bad frame'), OSError(104, 'Connection reset by peer')):
+        for exc in (EOFError('Unexpected end of stream.'), ValueError('bad frame'), OSError(104, 'Connection reset by peer'),
+                    OSError(113, 'No route to host')):
             conn2 = native_connection()
             setattr(conn2, lock_name(), threading.RLock())
             conn2._outgoing_packet_queue = deque()
